@@ -41,17 +41,18 @@ def nNone (s : List (Option (EdgeD × T))) : Nat := (s.filter Option.isNone).len
      `e.Right().Tip() || e.Left().Tip()`    → never removed; `SetLength(0.0)` when `removeTips`
                                               (`e.Left()` is a tip only when it is a root with a single
                                               neighbour: `deg == 1`; since fix e276115)
-     `!removeRoot && (e.Right().Nneigh() == 2 || e.Left().Nneigh() == 2)` → skipped
-   (the second test is the code's notion of "root branch of a rooted tree": an end
-   point with exactly two neighbours — it is the CURRENT number of neighbours, and it
-   is also true next to a single-child inner node).
+     `!removeRoot && e.Left() == t.Root() && e.Left().Nneigh() == 2` → skipped (a root branch of a rooted
+                                              tree; since fix 82ce8b8 — before it any end point with exactly
+                                              two neighbours counted, see the pinned variant below)
+   `contractL` treats the children of ONE node: the `rr` it receives is "removeRoot, or this node is not
+   the root" (`contractT` passes `rr || !isRoot`), `deg` the CURRENT number of neighbours of the node.
    The parent position of the node shifts by the number of removed children in front
    of it; the moved grand-children keep their own `neigh` slice (`child.neigh[idx] = e.Left()`
    is in place), hence their `ppos`. -/
 mutual
 def contractT (rr rt : Bool) (id : Int) (isRoot : Bool) : T → T
   | .node d p k =>
-    let r := contractL rr rt id (k.length + (if isRoot then 0 else 1)) k
+    let r := contractL (rr || !isRoot) rt id (k.length + (if isRoot then 0 else 1)) k
     .node d (p - nNone (r.1.take p)) (stayKids r.1 ++ r.2)
 def contractL (rr rt : Bool) (id : Int) (deg : Nat) : Kids → List (Option (EdgeD × T)) × Kids
   | [] => ([], [])
@@ -60,14 +61,16 @@ def contractL (rr rt : Bool) (id : Int) (deg : Nat) : Kids → List (Option (Edg
     let c' := contractT rr rt id false c
     if e.id == id then
       if c.isLeaf || deg == 1 then (some (if rt then zeroLen e else e, c') :: sa.1, sa.2)
-      else if !rr && (c.kids.length + 1 == 2 || deg == 2) then (some (e, c') :: sa.1, sa.2)
+      else if !rr && deg == 2 then (some (e, c') :: sa.1, sa.2)
       else (none :: sa.1, c'.kids ++ sa.2)
     else (some (e, c') :: sa.1, sa.2)
 end
 
-/- The code before fix e276115 tested `e.Right().Tip()` only: the terminal branch next to a root
-   that is itself a tip was contracted like an inner branch.  Pinned variant, kept for the negative
-   theorem `roottip_tip_lost`. -/
+/- The code before fixes e276115 and 82ce8b8: the tip test looked at `e.Right()` only (the terminal branch
+   next to a root that is itself a tip was contracted like an inner branch), and the "root branch" test
+   was `e.Right().Nneigh() == 2 || e.Left().Nneigh() == 2` (a single-child inner node protected both its
+   branches).  Pinned variant, kept for the negative theorems `roottip_tip_lost` and
+   `single_child_protected_pinned`. -/
 mutual
 def contractTPinned (rr rt : Bool) (id : Int) (isRoot : Bool) : T → T
   | .node d p k =>
@@ -133,6 +136,32 @@ def collapseDepth (mn mx : Int) (rr rt : Bool) (t : T) : Option T :=
     on every branch: no `ReinitIndexes`): `TopoDepth` fails on the first branch, before anything is
     removed; without branches there is nothing to fail on. -/
 def collapseDepthNoIndex (t : T) : Option T := if t.splits.isEmpty then some t else none
+
+/- `CollapseTopoDepth` as the LIBRARY call really is: it does not index anything, it reads the subtree
+   sizes `ntaxleft` / `ntaxright` that the last `ReinitIndexes` / `ReinitInternalIndexes` left on each
+   `Edge` object.  `stored` gives them per branch id (a branch created since then has none: 0, 0).
+   `TopoDepth` fails on the first branch, in `Edges()` order, one of whose sizes is 0 — during the
+   selection loop, so nothing has been removed yet.  (The COMMAND `collapse depth` re-indexes each tree
+   first: `cmdDepth`.) -/
+def storedSizes (stored : List (Int × Nat × Nat)) (id : Int) : Nat × Nat :=
+  match stored.find? (fun x => x.1 == id) with
+  | some x => x.2
+  | none => (0, 0)
+
+def staleErr (stored : List (Int × Nat × Nat)) (s : SplitE) : Bool :=
+  (storedSizes stored s.e.id).1 == 0 || (storedSizes stored s.e.id).2 == 0
+
+def selDepthStored (stored : List (Int × Nat × Nat)) (mn mx : Int) (s : SplitE) : Bool :=
+  let d := min (storedSizes stored s.e.id).1 (storedSizes stored s.e.id).2
+  decide (mn ≤ (d : Int)) && decide ((d : Int) ≤ mx)
+
+def collapseDepthStored (stored : List (Int × Nat × Nat)) (mn mx : Int) (rr rt : Bool) (t : T) : Option T :=
+  if t.splits.any (staleErr stored) then none
+  else some (collapse (selDepthStored stored mn mx) rr rt t)
+
+/-- what `ReinitIndexes` would store on the branches of `t` -/
+def freshSizes (t : T) : List (Int × Nat × Nat) :=
+  t.splits.map fun s => (s.e.id, t.tipNames.length - s.below.length, s.below.length)
 
 /-- branch ids pairwise distinct (edge pointers are) -/
 def uniqueIds (t : T) : Bool := decide ((t.splits.map (·.e.id)).Nodup)
